@@ -182,6 +182,14 @@ def run_shards(p, prop, variant, tier, seed, nshards, binary, extra_args=None, t
         env.update(env_extra)
 
     def launch(i, start_from=None, attempt=0):
+        nonlocal prefix, env, cwd
+        if variant == "miri":
+            # every shard is its own sampled schedule: distinct Miri seed and preemption rate
+            rate = ["0.01", "0.05", "0.2", "0.5"][i % 4]
+            prefix, env, cwd = shard_cmd(p, binary, variant, seed * 1000 + i,
+                                         (miri_extra + f" -Zmiri-preemption-rate={rate}").strip())
+            if env_extra:
+                env.update(env_extra)
         out = os.path.join(logdir, f"s{i}.a{attempt}.jsonl")
         prog = os.path.join(logdir, f"s{i}.a{attempt}.progress")
         err = os.path.join(logdir, f"s{i}.a{attempt}.stderr")
@@ -273,6 +281,9 @@ def classify_sanitizer(tail, variant, rc):
         m = re.search(r"error: Undefined Behavior: ([^\n]+)", tail)
         loc = re.search(r"--> (/repo/src/[^\n]+)", tail)
         return {"tool": "miri", "kind": m.group(1)[:120] if m else "UB", "frame": loc.group(1) if loc else None}
+    if "unsupported operation" in tail:
+        m = re.search(r"unsupported operation: ([^\n]+)", tail)
+        return {"tool": "miri", "kind": "unsupported", "frame": m.group(1)[:100] if m else None}
     if "the evaluated program deadlocked" in tail:
         return {"tool": "miri", "kind": "deadlock", "frame": None}
     if "main thread terminated without waiting" in tail:
@@ -567,6 +578,9 @@ def handle_crashes(p, v, prop, variant, tier, seed, binary, res, scale, opts):
             continue
         d = describe_case(p, prop, variant, tier, seed, c["idx"], binary, scale)
         san = classify_sanitizer(tail, variant, 97 if variant == "vg" else -1) or c.get("san")
+        if san and san.get("kind") == "unsupported":
+            v.inconclusive.append(f"{variant}: case {c['idx']} needs an operation the tool does not support: {san.get('frame')}")
+            continue
         if san:
             sig = f"{san['tool']}:{san['kind']} {d.get('component', '')} @{san.get('frame')}"
         else:
